@@ -186,9 +186,10 @@ func runCfCase(c CfCase, tag string) (string, map[string]int) {
 		switch {
 		case err == nil:
 			proc, served = 1, 1
-			for _, ae := range []string{"", "gzip"} {
+			for i, ae := range []string{"", "gzip"} {
 				req, _ := http.NewRequest("GET", fmt.Sprintf("http://127.0.0.1:%d/x", hp.port), nil)
 				req.Header.Set("X-API-Key", "your-secret-api-key")
+				req.Header.Set("X-Forwarded-For", fmt.Sprintf("10.9.8.%d", i+1)) // a client of its own: a configured limiter with one token must not refuse the second request
 				if ae != "" {
 					req.Header.Set("Accept-Encoding", ae)
 				}
